@@ -445,12 +445,14 @@ class Check:
             if has_geneq and f"Utv.GenEq.{self.prop}" not in mods:
                 mods.append(f"Utv.GenEq.{self.prop}")
             ok, log = lake_build(mods)
+            failed_mods = []
             if not ok:
                 # which modules fail individually?  (a broken GenEq must not hide the others)
                 build_log += log
                 for m in mods:
                     okm, logm = lake_build([m])
                     if not okm:
+                        failed_mods.append(m)
                         errs = [l for l in logm.splitlines() if "error" in l][:3]
                         broken.append(f"lake build {m} failed: " + " | ".join(errs))
             names = []
@@ -460,7 +462,9 @@ class Check:
             if has_geneq:
                 names += [n for n in theorem_names(f"Utv.GenEq.{self.prop}", self.prop + "_gen_") if n not in names]
             names += list(self.extra_obligations)
-            axioms = print_axioms([m for m in mods if module_path(m).exists()], names) if names else {}
+            # audit only against the modules that built: the theorems of a module that does not build are reported as
+            # not checking, the others keep their own verdict
+            axioms = print_axioms([m for m in mods if module_path(m).exists() and m not in failed_mods], names) if names else {}
         obligations = len(names)
         discharged = 0
         for n in names:
